@@ -44,8 +44,14 @@ def main():
         finally:
             shutil.rmtree(tmp, ignore_errors=True)
     head = subprocess.run("git -C /repo rev-parse --short HEAD", shell=True, capture_output=True, text=True).stdout.strip()
-    if len(ids) >= 8:
-        json.dump(dict(repo_head=head, results=out), open(os.path.join(VERIF, "benign", "RECHECK.json"), "w"), indent=1, sort_keys=True)
+    rf = os.path.join(VERIF, "benign", "RECHECK.json")
+    merged = {}
+    if a and os.path.exists(rf):          # a partial run updates the entries it re-ran
+        prev = json.load(open(rf))
+        if prev.get("repo_head") == head:
+            merged = prev.get("results", {})
+    merged.update(out)
+    json.dump(dict(repo_head=head, results=merged), open(rf, "w"), indent=1, sort_keys=True)
     return 0 if ok else 1
 
 
